@@ -247,6 +247,8 @@ def run(case, ctx):
             # ---- metrics of THIS request's own forward / reverse propagation
             exp = expected_metrics(pth[-1], q)
             for name, val in exp.items():
+                if isinstance(val, tuple) and (math.isnan(val[1]) or math.isinf(val[1])):
+                    ctx.label(f'receiver-figure-undefined:{name}')
                 got = metric(props['path-metric'], name)
                 if not metric_ok(got, val):
                     ctx.violation(f'metric-differs-from-receiver:{name}', f'{tag}: reported {got!r}, receiver gives {val!r}')
